@@ -231,7 +231,9 @@ func (b *c03Bucket) sync(keys []string) error {
 	}
 	for _, k := range keys {
 		if _, ok := b.live[k]; !ok {
-			if r := put(b.st, "bk0", k, c03Body(k)); r.Status != 200 {
+			// every third key arrives by server-side copy (c04Store): a listing entry describes the
+			// stored object however it got there
+			if r := c04Store(b.st, k, c03Body(k)); r.Status != 200 {
 				return fmt.Errorf("put %q: %s", k, r)
 			}
 			b.live[k] = c03Body(k)
@@ -595,7 +597,7 @@ func c03Run(t *testing.T, c *evid.Collector) {
 				delete(live, key)
 			} else {
 				body := []byte(fmt.Sprintf("%s#%d", key, i))
-				if r := put(st, "bk0", key, body); r.Status != 200 {
+				if r := c04Store(st, key, body); r.Status != 200 {
 					rt.Fatalf("harness: put %q: %s", key, r)
 				}
 				live[key] = body
